@@ -619,6 +619,114 @@ fn function_level_signature(check: &Check) {
     }
 }
 
+/// Intact data verifies — also after the archive was changed through the library's own modification API.
+/// An archive with attribute digests is opened with `MutableArchive`; a history of add / replace / remove /
+/// rename (and optionally compact) is applied and flushed; afterwards every file the archive should hold reads
+/// its content and `SFileVerifyFile` succeeds on it (untouched files keep valid digests, changed files get new
+/// ones), and removed names are gone.
+fn intact_after_in_place_modification(check: &Check, storm: &Storm) {
+    use wow_mpq::{AddFileOptions, MutableArchive};
+    let histories: [(&str, &[&str]); 7] = [
+        ("add", &["add"]),
+        ("replace", &["replace"]),
+        ("remove", &["remove"]),
+        ("rename", &["rename"]),
+        ("add-replace-remove", &["add", "replace", "remove"]),
+        ("add-flush-add", &["add", "flush", "add2"]),
+        ("add-remove-compact", &["add", "remove", "compact"]),
+    ];
+    for version in 1..=4u8 {
+        for attrs in [Attrs::Crc32, Attrs::Full, Attrs::FullThenNoCrcs, Attrs::Crc32ThenNoCrcs] {
+            for (hname, ops) in histories.iter() {
+                let dir = engine::scratch("c10m");
+                let p = dir.path().join("m.mpq");
+                let mut files = files_basic();
+                files.truncate(7);
+                let spec = ArchiveSpec { version, shift: 0, crcs: false, attrs: attrs.clone(), listfile: true, compress_tables: false, table_method: M_ZLIB, files };
+                let mut model: std::collections::BTreeMap<String, Vec<u8>> = (0..spec.files.len()).map(|i| (spec.files[i].name.clone(), spec.content(i))).collect();
+                let class = format!("modified-in-place:V{version}:{attrs:?}:{hname}");
+                let case = json!({"fn": "modified-in-place", "version": version, "attrs": format!("{attrs:?}"), "history": hname});
+                let r: Result<(), Fail> = (|| {
+                    spec.builder().build(&p).map_err(|e| Fail::new("modified-in-place:build-fails", e.to_string()))?;
+                    let mut m = engine::guard("MutableArchive::open", || MutableArchive::open(&p))?.map_err(|e| Fail::new("modified-in-place:open-fails", e.to_string()))?;
+                    let mut gone: Vec<String> = vec![];
+                    for op in ops.iter() {
+                        let res = match *op {
+                            "add" => {
+                                let d = materialize(ContentClass::Text, 700, 21);
+                                model.insert("dir\\added.txt".into(), d.clone());
+                                engine::guard("add_file_data", || m.add_file_data(&d, "dir\\added.txt", AddFileOptions::new()))?
+                            }
+                            "add2" => {
+                                let d = materialize(ContentClass::Random, 1300, 22);
+                                model.insert("added2.bin".into(), d.clone());
+                                engine::guard("add_file_data", || m.add_file_data(&d, "added2.bin", AddFileOptions::new()))?
+                            }
+                            "replace" => {
+                                let d = materialize(ContentClass::LowEntropy, 900, 23);
+                                model.insert("z_single.txt".into(), d.clone());
+                                engine::guard("add_file_data", || m.add_file_data(&d, "z_single.txt", AddFileOptions::new().replace_existing(true)))?
+                            }
+                            "remove" => {
+                                model.remove("dir\\raw_multi.bin");
+                                gone.push("dir\\raw_multi.bin".into());
+                                engine::guard("remove_file", || m.remove_file("dir\\raw_multi.bin"))?
+                            }
+                            "rename" => {
+                                let d = model.remove("raw_single.bin").unwrap();
+                                model.insert("renamed\\single.bin".into(), d);
+                                gone.push("raw_single.bin".into());
+                                engine::guard("rename_file", || m.rename_file("raw_single.bin", "renamed\\single.bin"))?
+                            }
+                            "flush" => engine::guard("flush", || m.flush())?,
+                            "compact" => engine::guard("compact", || m.compact())?,
+                            _ => unreachable!(),
+                        };
+                        if let Err(e) = res {
+                            // a refused operation is not this clause's business (C06 judges the map); the history ends
+                            check.bump(&format!("modified-in-place:op-refused:{op}"), 1);
+                            let _ = e;
+                            return Ok(());
+                        }
+                    }
+                    engine::guard("flush", || m.flush())?.map_err(|e| Fail::new("modified-in-place:flush-fails", e.to_string()))?;
+                    drop(m);
+                    let mut a = engine::guard("Archive::open", || Archive::open(&p))?.map_err(|e| Fail::new("modified-in-place:archive-does-not-open", e.to_string()))?;
+                    let h = storm.open(p.to_str().unwrap()).ok_or_else(|| Fail::new("modified-in-place:c-api-cannot-open", "SFileOpenArchive failed".to_string()))?;
+                    let mut verdict = Ok(());
+                    for (n, want) in &model {
+                        match engine::guard("read_file", || a.read_file(n))? {
+                            Ok(d) if &d == want => {}
+                            Ok(_) => {
+                                verdict = Err(Fail::new("modified-in-place:content-differs", format!("V{version} {attrs:?} after [{hname}]: {n}")));
+                                break;
+                            }
+                            Err(e) => {
+                                verdict = Err(Fail::new("modified-in-place:intact-file-unreadable", format!("V{version} {attrs:?} after [{hname}]: {n}: {e}")));
+                                break;
+                            }
+                        }
+                        if !storm.verify_file(h, n, 0) {
+                            let touched = matches!(n.as_str(), "dir\\added.txt" | "added2.bin" | "z_single.txt" | "renamed\\single.bin") && !(n == "z_single.txt" && !ops.contains(&"replace"));
+                            verdict = Err(Fail::new(
+                                format!("modified-in-place:intact-file-fails-verification:{}", if touched { "file-written-by-the-modification" } else { "untouched-file" }),
+                                format!("V{version} {attrs:?} after [{hname}]: SFileVerifyFile({n}) fails (last error {}) although the file reads back correctly", storm.last_error()),
+                            ));
+                            break;
+                        }
+                    }
+                    storm.close(h);
+                    verdict
+                })();
+                check.count(&class, true);
+                if let Err(f) = r {
+                    check.fail(&f, case);
+                }
+            }
+        }
+    }
+}
+
 /// Signature area (the 72-byte `(signature)` file) placed anywhere relative to the 64 KiB digest
 /// units — inside one unit, touching a boundary, straddling a boundary by every split, at the very
 /// start and the very end of the signed range. Every byte within 100 bytes of the area must
@@ -771,6 +879,7 @@ fn main() {
         if c.get("fn").is_some() {
             function_level_signature(&check);
             function_level_signature_placement(&check);
+            intact_after_in_place_modification(&check, &storm);
         } else {
             let f: Fault = serde_json::from_value(c.clone()).expect("fault");
             let spec = vcheck::engine::supervise::Spec { cpu_secs: 60, rlimit_as: 6 << 30, ..vcheck::engine::supervise::Spec::new("c10") };
@@ -786,6 +895,7 @@ fn main() {
 
     function_level_signature(&check);
     function_level_signature_placement(&check);
+    intact_after_in_place_modification(&check, &storm);
 
     let quick = check.tier == engine::Tier::Quick;
     for k in &ks {
